@@ -6,7 +6,7 @@ All theorems are about the character-level functions the driver runs (`processPa
 for ALL strings (`Str = List Char`), of any length.  `pathIndicatesDirectory`, `concatPaths`, `bufferSize` and the
 `docTable*` lists are regenerated from the source tree on every run (Gen/C18.lean).
 -/
-import DuneVerif.Proofs.C18.Round2
+import DuneVerif.Proofs.C18.Round4
 
 namespace DV.C18
 
@@ -103,8 +103,10 @@ theorem pretty_table (p : Str) (isDirectory : Bool) : prettyPath p isDirectory =
   prettyWith_render (denote p) (denote_valid p) isDirectory processPathC p (processC_eq_S p)
 
 /-- the one-argument form decides `isDirectory` with pathIndicatesDirectory -/
-theorem pretty_auto (p : Str) : prettyPathAuto p = prettySpec (denote p) (pathIndicatesDirectory p) :=
-  pretty_table p _
+theorem pretty_auto (p : Str) : prettyPathAuto p = prettySpec (denote p) (pathIndicatesDirectory p) := by
+  unfold prettyPathAuto
+  rw [prettyPathAutoWith_eq]
+  exact pretty_table p _
 
 /-- pretty-printing never changes the location a path denotes -/
 theorem pretty_denote_preserved (p : Str) (isDirectory : Bool) : denote (prettyPath p isDirectory) = denote p := by
@@ -114,6 +116,55 @@ example : prettyPath ['a', '/', '/', '/', 'b'] false = ['a', '/', 'b'] := by dec
 example : prettyPath ['a', '/', '.', '.'] true = ['.'] := by decide
 example : prettyPath ['.', '.', '/', 'a', '/', '.', '.'] true = ['.', '.'] := by decide
 example : prettyPathAuto ['/', '.', '.', '/', 'a', '/'] = ['/', 'a', '/'] := by decide
+
+/-- TIE (round four): the body of `prettyPath(p, isDirectory)` that the translator regenerates from path.cc on every
+    run — and that the driver executes — is the canonical transcription the other theorems reason about.  A change of a
+    test, a literal, the `resize` amount or the statement order in the source that changes the meaning breaks this
+    obligation (and the run then searches for a failing input); reordering independent tests or respelling them
+    (`empty()`, `pop_back()`, `"/"` for `'/'`) does not. -/
+theorem prettyPath_regenerated (proc : Str → Str) (p : Str) (isDirectory : Bool) :
+    prettyPathWith proc p isDirectory = prettyCanonWith proc p isDirectory ∧
+    prettyPathAutoWith (prettyPathWith proc) p = prettyCanonWith proc p (pathIndicatesDirectory p) := by
+  refine ⟨prettyPathWith_eq_canon proc p isDirectory, ?_⟩
+  rw [prettyPathAutoWith_eq, prettyPathWith_eq_canon]
+
+example : prettyPathWith processPathC ['a', '/', '.', '.', '/', 'b'] true = ['b', '/'] := by decide
+example : prettyCanonWith processPathC ['.', '.', '/', 'b', '/', '.', '.'] true = ['.', '.'] := by decide
+
+/-- pretty-printing is idempotent (for the same directory flag) -/
+theorem pretty_idempotent (p : Str) (isDirectory : Bool) :
+    prettyPath (prettyPath p isDirectory) isDirectory = prettyPath p isDirectory := by
+  rw [pretty_table (prettyPath p isDirectory), pretty_denote_preserved, pretty_table]
+
+example : prettyPath (prettyPath ['a', '/', '/', 'b', '/', '.'] false) false = ['a', '/', 'b'] := by decide
+
+/-- a pretty-printed path carries its directory flag: the one-argument overload applied to the output of the
+    two-argument one changes nothing (so `prettyPath(prettyPath(p, d))` = `prettyPath(p, d)`, and in particular the
+    one-argument overload is idempotent) -/
+theorem pretty_auto_stable (p : Str) (isDirectory : Bool) :
+    prettyPathAuto (prettyPath p isDirectory) = prettyPath p isDirectory := by
+  rw [pretty_auto, pretty_denote_preserved, pretty_table]
+  by_cases hn : (denote p).names = []
+  · unfold prettySpec; simp [hn]
+  · rw [indicates_prettySpec (denote_valid p) isDirectory hn]
+
+theorem pretty_auto_idempotent (p : Str) : prettyPathAuto (prettyPathAuto p) = prettyPathAuto p := by
+  have h : prettyPathAuto p = prettyPath p (pathIndicatesDirectory p) := by
+    unfold prettyPathAuto; rw [prettyPathAutoWith_eq]
+  rw [h]; exact pretty_auto_stable p _
+
+example : prettyPathAuto (prettyPath ['a', '/', '/', 'b'] true) = ['a', '/', 'b', '/'] := by decide
+example : prettyPathAuto (prettyPath ['a', '/', '/', 'b'] false) = ['a', '/', 'b'] := by decide
+example : prettyPathAuto (prettyPathAuto ['a', '/', '.', '/', 'b', '/', '.']) = ['a', '/', 'b', '/'] := by decide
+
+/-- sanitising a pretty-printed path gives the sanitised original -/
+theorem process_pretty (p : Str) (isDirectory : Bool) :
+    processPathC (prettyPath p isDirectory) = processPathC p := by
+  rw [processC_eq_S, processC_eq_S]
+  unfold processPathS
+  rw [pretty_denote_preserved]
+
+example : processPathC (prettyPath ['/', 'a', '/', '/', 'b'] false) = ['/', 'a', '/', 'b', '/'] := by decide
 
 /-- every row of the example table in the documentation of prettyPath (re-read from path.hh on every run),
     for the model and for the specification `prettySpec` the theorem `pretty_table` is stated with -/
@@ -164,6 +215,15 @@ example : concatPaths ['a'] ['b', '/'] = ['a', '/', 'b', '/'] := by decide
 example : concatPaths ['a', '/'] ['b'] = ['a', '/', 'b'] := by decide
 example : concatPaths ['a'] ['/', 'b'] = ['/', 'b'] := by decide
 
+/-- concatenation is associative on the strings themselves (a two-step history: joining three paths gives the same
+    text whichever pair is joined first) -/
+theorem concat_assoc (a b c : Str) : concatPaths (concatPaths a b) c = concatPaths a (concatPaths b c) := by
+  simp only [concatPaths_eq_spec]
+  exact concatSpec_assoc a b c
+
+example : concatPaths (concatPaths ['a'] ['b', '/']) ['c'] = ['a', '/', 'b', '/', 'c'] := by decide
+example : concatPaths ['a'] (concatPaths ['/', 'b'] ['c']) = ['/', 'b', '/', 'c'] := by decide
+
 /-- every row of the example table in the documentation of concatPaths (re-read from path.hh on every run) -/
 theorem doc_table_concatPaths : ∀ row ∈ docTableConcatPaths, concatPaths row.1 row.2.1 = row.2.2 := by decide
 
@@ -210,6 +270,25 @@ theorem relative_defined_iff (newbase p : Str) :
     unfold relativePath relativePathS; rw [hfun]
   rw [this]; exact relative_defined newbase p
 
+/-- the relative path from a location to itself is the empty path, whatever the spelling -/
+theorem relative_self (b p : Str) (h : denote b = denote p) : relativePath b p = .ok [] := by
+  rw [relative_exact, h]
+  unfold relativeSpec
+  simp [splitCommon_self, joinSlash]
+
+example : relativePath ['a', '/', '.', '/', 'b'] ['a', '/', 'c', '/', '.', '.', '/', 'b', '/'] = .ok [] := by decide
+
+/-- string-level round trip: when a relative path is reported, concatenating it onto the base and sanitising gives
+    exactly the sanitised target -/
+theorem relative_roundtrip_sanitized (newbase p r : Str) (h : relativePath newbase p = .ok r) :
+    processPathC (concatPaths newbase r) = processPathC p := by
+  rw [processC_eq_S, processC_eq_S]
+  unfold processPathS
+  rw [relative_roundtrip newbase p r h]
+
+example : processPathC (concatPaths ['a', '/', 'b'] ['.', '.', '/', 'c', '/', 'd', '/']) = processPathC ['a', '/', 'c', '/', 'd'] := by
+  decide
+
 example : relativePath ['a', '/', 'b'] ['a', '/', 'c', '/', 'd'] = .ok ['.', '.', '/', 'c', '/', 'd', '/'] := by decide
 example : relativePath ['/', 'a'] ['/'] = .ok ['.', '.', '/'] := by decide
 example : relativePath ['.', '.'] ['a'] = .notImplemented := by decide
@@ -234,6 +313,25 @@ theorem hasSuffix_iff (c suf : Str) : hasSuffix c suf = true ↔ ∃ t, c = t ++
 
 example : hasPrefix ['a', 'b', 'c'] ['a', 'b'] = true ∧ hasPrefix ['a', 'b'] ['a', 'b', 'c'] = false := by decide
 example : hasSuffix ['a', 'b', 'c'] ['b', 'c'] = true ∧ hasSuffix ['c'] ['b', 'c'] = false := by decide
+
+/-- what a `const char*` pattern sees of a `std::string` (the driver hands `cstr y` to hasPrefix/hasSuffix): the
+    longest NUL-free prefix — all of it if it contains no NUL, otherwise the part before the first NUL -/
+theorem cstr_spec (s : Str) :
+    Char.ofNat 0 ∉ cstr s ∧ (cstr s = s ∨ ∃ t, s = cstr s ++ Char.ofNat 0 :: t) :=
+  ⟨cstr_no_nul s, cstr_decomp s⟩
+
+example : cstr ['a', Char.ofNat 0, 'b'] = ['a'] := by decide
+example : hasSuffix ['x', 'a'] (cstr ['a', Char.ofNat 0, 'b']) = true := by decide
+
+/-- TIE (round four): the two pieces of formatString's control flow that the translator regenerates from
+    stringutility.hh on every run are sound for every return value and every capacity: the test "the stack buffer was
+    large enough" implies that the text and its NUL fit (`r < cap`), and the heap buffer has room for the text and its
+    NUL.  (`r <= bufferSize`, `make_unique<char[]>(r)` break this obligation; `r+1 <= bufferSize` or `r+2` do not.) -/
+theorem formatString_skeleton_sound (r cap : Nat) :
+    (fmtFitsStack r cap = true → r < cap) ∧ r < fmtDynamicSize r :=
+  ⟨fmtFitsStack_sound r cap, fmtDynamicSize_sound r⟩
+
+example : fmtFitsStack 999 1000 = true ∧ fmtFitsStack 1000 1000 = false ∧ fmtDynamicSize 1000 = 1001 := by decide
 
 /-- formatString returns the complete formatted text whatever its length — below the stack buffer, exactly at it
     (bufferSize-1, bufferSize, bufferSize+1) or far beyond — as long as the length is representable in the `int`
